@@ -112,9 +112,12 @@ def gen_case(run_seed: int, index: int, tier: str) -> dict:
             for s in shape:
                 rows *= s
             bits = [[rng.randrange(2) for _ in range(nsym * bps)] for _ in range(rows)]
-            pre.append(["fwd", rng.choice(["mod", "both", "both"]), shape, bits])
-        elif r < 0.93:
+            pre.append(["fwd", rng.choice(["mod", "both", "both", "both_soft"]), shape, bits])
+        elif r < 0.90:
             pre.append(["reset", rng.choice(["mod", "demod", "both"])])
+        elif r < 0.93:
+            # the whole object is cast, as a pipeline holding it would be (model.half(), model.bfloat16(), a bf16 checkpoint)
+            pre.append(["cast", rng.choice(["mod", "demod", "demod", "both"]), rng.choice(["double", "half", "bfloat16", "bfloat16", "float"])])
         else:
             # read-only use of the objects: plotting the constellation, printing, reading the state dict
             pre.append(["inspect", rng.choice(["mod", "demod", "both"]), rng.choice(["plot", "plot", "repr", "state_dict"])])
@@ -206,6 +209,7 @@ def execute(case: dict) -> RunResult:
         res.digest, res.n_events = log.digest(), len(log)
         return res
     dirtied = False
+    cast_seen = False
     for op in case["pre"]:
         try:
             if op[0] == "mode":
@@ -228,6 +232,12 @@ def execute(case: dict) -> RunResult:
                             repr(obj)
                         else:
                             obj.state_dict()
+            elif op[0] == "cast":
+                for tgt, obj in (("mod", mod), ("demod", demod)):
+                    if op[1] in (tgt, "both"):
+                        getattr(obj, op[2])()
+                cast_seen = True
+                res.faults[f"history.module_{op[2]}"] += 1
             elif op[0] == "reset":
                 for tgt, obj in (("mod", mod), ("demod", demod)):
                     if op[1] in (tgt, "both"):
@@ -239,6 +249,9 @@ def execute(case: dict) -> RunResult:
                     y = mod(x)
                     if op[1] == "both":
                         demod(y)
+                    elif op[1] == "both_soft":
+                        demod(y, 0.5)  # an earlier soft-decision use of the same receiver object
+                        res.faults["history.soft_call_on_same_receiver"] += 1
                 res.faults["history.forward"] += 1
                 if mod.training:
                     dirtied = True
@@ -320,7 +333,9 @@ def execute(case: dict) -> RunResult:
             if out2.shape != out.shape or not torch.equal(out2.to(torch.float64), out.to(torch.float64)):
                 violate("second_receiver", "a second, fresh demodulator given the same symbols returned different bits")
     except Exception as e:
-        if chk.get("dtype", "float32") not in ("float32", "float64", "int64"):
+        if cast_seen:
+            res.probes["rejected_after_module_cast"] += 1  # narrow relaxation: a cast object may refuse inputs of another precision
+        elif chk.get("dtype", "float32") not in ("float32", "float64", "int64"):
             res.probes[f"rejected_dtype.{chk['dtype']}"] += 1  # narrow relaxation: an input type may be rejected
         else:
             violate(f"exception:{type(e).__name__}", f"raised {type(e).__name__}: {str(e)[:160]}")
